@@ -49,7 +49,21 @@ struct Cfg {
     }
 };
 
+// custom-tabulated rule given as an object (not a file): 3 levels of Gauss-Legendre nodes (1, 2, 3 points), the description is the interesting part:
+// "tabobj:1" an ordinary text, "tabobj:2" the empty string (documented as possible), "tabobj:3" a text that starts with blanks
+inline CustomTabulated table_object(int variant){
+    const double s3 = std::sqrt(1.0 / 3.0), s5 = std::sqrt(3.0 / 5.0);
+    std::vector<std::vector<double>> nodes = {{0.0}, {-s3, s3}, {-s5, 0.0, s5}}, weights = {{2.0}, {1.0, 1.0}, {5.0 / 9.0, 8.0 / 9.0, 5.0 / 9.0}};
+    const char *desc[] = {"", "three Gauss-Legendre levels", "", "   indented description"};
+    return CustomTabulated(std::vector<int>{1, 2, 3}, std::vector<int>{1, 3, 5}, std::move(nodes), std::move(weights), std::string(desc[(variant >= 1 && variant <= 3) ? variant : 1]));
+}
 inline void make(TasmanianSparseGrid &g, const Cfg &c){
+    if (c.fam == F_GLOBAL && c.custom.compare(0, 7, "tabobj:") == 0){
+        g.makeGlobalGrid(c.dims, c.outs, c.depth, c.type, table_object(atoi(c.custom.c_str() + 7)), c.aw, c.limits);
+        if (!c.ta.empty()) g.setDomainTransform(c.ta, c.tb);
+        if (!c.conformal.empty()) g.setConformalTransformASIN(c.conformal);
+        return;
+    }
     switch(c.fam){
         case F_GLOBAL:   g.makeGlobalGrid(c.dims, c.outs, c.depth, c.type, c.rule, c.aw, c.alpha, c.beta, c.custom.empty() ? nullptr : c.custom.c_str(), c.limits); break;
         case F_SEQUENCE: g.makeSequenceGrid(c.dims, c.outs, c.depth, c.type, c.rule, c.aw, c.limits); break;
